@@ -11,7 +11,8 @@ from harness import gen, oracles, par
 from harness.checks.C17 import sig_programs
 from harness.detcheck import key_of
 
-CAUSES = ['success', 'task_exc', 'init_exc', 'exit_exc', 'timeout', 'exit_timeout', 'sigkill', 'sigint', 'terminate_during_imap', 'abandoned_imap', 'mixed_map', 'apply']
+CAUSES = ['success', 'task_exc', 'init_exc', 'exit_exc', 'timeout', 'exit_timeout', 'sigkill', 'sigint', 'terminate_during_imap', 'abandoned_imap', 'mixed_map', 'apply',
+          'explicit_join', 'setter_cycle']
 
 
 def exit_scenarios(rng, n):
@@ -64,6 +65,22 @@ def exit_scenarios(rng, n):
             op['op'] = rng.choice(['imap', 'imap_unordered'])
             op['consume'] = 1
             ops.append({'op': 'map', 'n': 4, 'chunk_size': 1})
+        elif cause == 'explicit_join':
+            # stop_and_join() / terminate() called by the user in the middle of the pool's life (also on a keep-alive pool)
+            if rng.random() < .7:
+                pool['keep_alive'] = True
+            ops.append({'op': rng.choice(['stop_and_join', 'stop_and_join', 'terminate'])})
+            if rng.random() < .5:
+                ops.append({'op': 'map', 'n': 4, 'chunk_size': 1})
+                ops.append({'op': 'stop_and_join'})
+        elif cause == 'setter_cycle':
+            pool['keep_alive'] = True
+            cur = {k: bool(pool.get(k)) for k in ('pass_worker_id', 'shared_objects', 'use_worker_state')}
+            for _ in range(rng.randint(1, 3)):
+                what = rng.choice(sorted(cur))
+                cur[what] = not cur[what]
+                ops.append({'op': 'set', 'what': what, 'value': cur[what]})
+                ops.append({'op': 'map', 'n': rng.randint(2, 6), 'chunk_size': 1})
         elif cause == 'apply':
             ops = [gen.gen_apply_op(rng, pool['n_jobs'])]
             if ops[0].get('task_timeout'):
@@ -77,7 +94,7 @@ def exit_scenarios(rng, n):
             if victim not in (op.get('fail') or {}).get('at', ()):
                 op['stubborn'] = {str(victim): rng.choice([2.5, 4.0, 7.0])}
         # cycles: the same thing several times on one pool accumulates nothing
-        reps = rng.choice([1, 1, 2, 3]) if cause not in ('sigkill', 'sigint', 'abandoned_imap', 'mixed_map', 'terminate_during_imap') else 1
+        reps = rng.choice([1, 1, 2, 3]) if cause not in ('sigkill', 'sigint', 'abandoned_imap', 'mixed_map', 'terminate_during_imap', 'explicit_join', 'setter_cycle') else 1
         sc['ops'] = [copy.deepcopy(o) for _ in range(reps) for o in ops]
         out.append(sc)
     return out
@@ -111,6 +128,12 @@ def run(chk):
             chk.violation('sigint_handler_restored', case, {'after': o.get('sigint_handler_after')}, 'SIGINT handler as before', input_class='handler_' + sc['cause'])
         if o.get('tqdm_lock_same') is False:
             chk.violation('tqdm_lock_restored', case, {}, 'tqdm lock as before', input_class='tqdm_lock_' + sc['cause'])
+        # right after stop_and_join() (not keep_alive) / terminate() has returned nothing of the pool runs any more
+        for opi, (op2, oo2) in enumerate(zip(sc['ops'], o.get('ops', []))):
+            if (op2['op'] == 'terminate' or (op2['op'] == 'stop_and_join' and not op2.get('keep_alive'))) and oo2.get('outcome') == 'ok' and oo2.get('alive_after'):
+                chk.violation('nothing_alive_after_join', case, {'op': opi, 'alive': oo2['alive_after']}, 'no worker and no helper thread alive once stop_and_join()/terminate() returned',
+                              input_class='alive_after_' + op2['op'])
+                break
         led = o.get('ledger') or {}
         if led.get('manager_started', 0) != led.get('manager_stopped', 0) and not sc['pool'].get('enable_insights'):
             chk.violation('progress_manager_stopped', case, {'started': led.get('manager_started'), 'stopped': led.get('manager_stopped')}, 'the tqdm manager this pool started is stopped',
